@@ -27,6 +27,7 @@ FLOOR_TAGS = ["op:" + o for o in OPS] + ["variant:2d", "variant:ragged", "varian
                                          "cs:pos", "cs:neg", "side:L", "side:R", "red:argmax", "red:mean", "col:sum", "col:mean", "col:col_counts", "col:any", "j:neg",
                                          "kind:b", "kind:i", "kind:u", "kind:f", "order:F", "order:T", "source:lazyrows", "source:lazychain", "via:intervals", "via:plus1", "concat:mixed-dtypes", "scalar:0-d-array", "scalar:numpy-typed"]
 FLOOR_MONITORS = ["c17:compare", "inv:rla"]
+FP_STRICT = True       # a floating-point event inside the library that the dense computation does not have is a violation (shard.FpMonitor)
 N_RANDOM = {"quick": 20000, "thorough": 300000}
 
 
